@@ -240,5 +240,15 @@ def cases(draw, tier):
     return c
 
 
+@st.composite
+def stroquool_long(draw):
+    """StroquOOL with budgets large enough for several candidates (h_max >= 8 needs n >~ 1350), run to the end."""
+    c = draw(gen.run_case(names=["StroquOOL"], laws=["noise", "twolevel", "negative", "peakpos", "ties"], n_range=(600, 2200),
+                          script_prob=0.2, full_T_prob=1.0, T_min=3))
+    c["T"] = c["algo"]["params"]["n"]
+    return c
+
+
 def run_shard(ctx):
     ctx.drive("recommend", cases(ctx.tier), check_case, ctx.budget(12000, 80000))
+    ctx.drive("stroquool-long", stroquool_long(), check_case, ctx.budget(320, 4000))
